@@ -282,6 +282,101 @@ Fixpoint zseq (n : nat) (from : Z) : list Z :=
 Definition island_assignment (tbl : list build_row) (branch : string) (n : nat) (order : list nat) : list Z :=
   islands (build_of tbl branch) (zseq n 0) order.
 
+(* ------------------------------------------------------------------ brackets as seen from outside: one thread of control *)
+
+(* What an observer of np.random.seed / np.random.set_state sees: thread t enters a bracket with seed s
+   (get_state; seed), thread t leaves one (set_state of what THAT thread's bracket saved). *)
+Inductive bstep := BEnter (t s : Z) | BExit (t : Z).
+
+(* does the program end by raising (independent of the generator: Raise is the only source) *)
+Fixpoint raises (p : prog) : bool :=
+  match p with
+  | Raise => true
+  | Seq a b => raises a || raises b
+  | Seeded _ a => raises a
+  | Unord _ a b => raises a || raises b
+  | _ => false
+  end.
+
+(* the bracket operations of a program run by ONE thread (thread 0), in program order *)
+Fixpoint btrace (p : prog) : list bstep :=
+  match p with
+  | Seq a b => if raises a then btrace a else btrace a ++ btrace b
+  | Seeded (Some s) a => BEnter 0 s :: btrace a ++ [BExit 0]
+  | Seeded None a => btrace a
+  | Unord _ a b => if raises a then btrace a else btrace a ++ btrace b
+  | _ => []
+  end.
+
+(* LIFO discipline over ALL threads: every exit is by the thread that entered last.  This is what
+   "one thread of control" means for the shared generator; any interleaving of two threads' brackets
+   that is not properly nested breaks it. *)
+Fixpoint lifo_run (tr : list bstep) (stack : list Z) : option (list Z) :=
+  match tr with
+  | [] => Some stack
+  | BEnter t _ :: r => lifo_run r (t :: stack)
+  | BExit t :: r => match stack with
+                    | t' :: st => if t =? t' then lifo_run r st else None
+                    | [] => None
+                    end
+  end.
+Definition lifo (tr : list bstep) : bool :=
+  match lifo_run tr [] with Some [] => true | _ => false end.
+
+Section Brackets.
+  Variable gen : Type.
+  Variable seed_gen : Z -> gen.
+
+  (* each thread's bracket keeps its own saved state (a local variable of its generator frame): on exit
+     thread t restores what ITS most recent open bracket saved, wherever that sits among the others *)
+  Fixpoint take_saved (t : Z) (saved : list (Z * gen)) : option (gen * list (Z * gen)) :=
+    match saved with
+    | [] => None
+    | (t', g) :: r => if t =? t' then Some (g, r)
+                      else match take_saved t r with
+                           | Some (g', r') => Some (g', (t', g) :: r')
+                           | None => None
+                           end
+    end.
+
+  Fixpoint run_steps (tr : list bstep) (g : gen) (saved : list (Z * gen)) : gen * list (Z * gen) :=
+    match tr with
+    | [] => (g, saved)
+    | BEnter t s :: r => run_steps r (seed_gen s) ((t, g) :: saved)
+    | BExit t :: r => match take_saved t saved with
+                      | Some (g', saved') => run_steps r g' saved'
+                      | None => run_steps r g saved
+                      end
+    end.
+End Brackets.
+
+(* traces compared without thread names *)
+Definition bkind (b : bstep) : Z * Z := match b with BEnter _ s => (1, s) | BExit _ => (0, 0) end.
+Definition bkind_eqb (a b : Z * Z) : bool := (fst a =? fst b) && (snd a =? snd b).
+Fixpoint bkinds_eqb (a b : list (Z * Z)) : bool :=
+  match a, b with
+  | [], [] => true
+  | x :: a', y :: b' => bkind_eqb x y && bkinds_eqb a' b'
+  | _, _ => false
+  end.
+
+(* top-level blocks of a trace (a block = one outermost bracket with everything inside it) *)
+Fixpoint blocks_aux (tr : list (Z * Z)) (depth : Z) (cur : list (Z * Z)) : list (list (Z * Z)) :=
+  match tr with
+  | [] => match cur with [] => [] | _ => [rev cur] end
+  | x :: r =>
+      let d := if fst x =? 1 then depth + 1 else depth - 1 in
+      if d =? 0 then rev (x :: cur) :: blocks_aux r 0 [] else blocks_aux r d (x :: cur)
+  end.
+Fixpoint dedup_blocks (seen l : list (list (Z * Z))) : list (list (Z * Z)) :=
+  match l with
+  | [] => []
+  | x :: r => if existsb (bkinds_eqb x) seen then dedup_blocks seen r else x :: dedup_blocks (x :: seen) r
+  end.
+(* a calibration evaluates the same pipeline an implementation-defined number of times: compare its
+   trace as the list of DISTINCT top-level blocks, in order of first appearance *)
+Definition collapse (tr : list (Z * Z)) : list (Z * Z) := List.concat (dedup_blocks [] (blocks_aux tr 0 [])).
+
 (* ------------------------------------------------------------------ the free generator *)
 
 (* The initial (free) instance: a state is where its stream started plus the kinds of draws consumed
@@ -336,7 +431,9 @@ Record item := {
   (* what the implementation did (ids = renumbering by first occurrence over the whole session) *)
   ob_pre : Z; ob_inner : list Z; ob_post : Z;
   ob_draws : list Z; ob_res : Z; ob_raised : bool;
-  ob_aux : list Z         (* calibration: task index whose seed island 0, 1, ... actually has *) }.
+  ob_aux : list Z;        (* calibration: task index whose seed island 0, 1, ... actually has *)
+  it_collapse : bool;     (* compare the bracket trace as its distinct top-level blocks (calibration) *)
+  ob_trace : list bstep   (* np.random.seed / set_state calls seen during the item: thread, seed *) }.
 
 Section Renumber.
   Context {A : Type} (eqb : A -> A -> bool).
@@ -445,8 +542,20 @@ Definition out_eqb (a b : outp) : bool :=
   let '(s1, d1, r1, x1, a1) := a in let '(s2, d2, r2, x2, a2) := b in
   zlist_eqb s1 s2 && zlist_eqb d1 d2 && ids_refine r1 r2 && blist_eqb x1 x2 && zlist_eqb a1 a2.
 
+(* the brackets the implementation really opened - with which seeds, in which order - are the ones the
+   model's program opens when one thread runs it *)
+Definition trace_matches (it : item) : bool :=
+  if it_run it then
+    let m := map bkind (btrace (it_prog it)) in
+    let o := map bkind (ob_trace it) in
+    if it_collapse it then bkinds_eqb (collapse m) (collapse o) else bkinds_eqb m o
+  else true.
+
+(* hypothesis of the single-thread theorems, checked on what was observed *)
+Definition trace_lifo (it : item) : bool := lifo (ob_trace it).
+
 Definition case_mismatch (cfg : srs_cfg) (its : list item) : bool :=
-  negb (out_eqb (model_out cfg its) (impl_out its)).
+  negb (out_eqb (model_out cfg its) (impl_out its) && forallb trace_matches its).
 
 (* ---- the specification, judged on the implementation's observations only ---- *)
 
@@ -485,3 +594,6 @@ Definition mismatches (cfg : srs_cfg) (cases : list (list item)) : list Z :=
   indices_where (case_mismatch cfg) cases 0.
 Definition violations (cases : list (list item)) : list Z :=
   indices_where (fun c => negb (spec_holds c)) cases 0.
+(* sessions in which some item's brackets were NOT used by one thread of control *)
+Definition interleaved (cases : list (list item)) : list Z :=
+  indices_where (fun c => negb (forallb trace_lifo c)) cases 0.
